@@ -197,6 +197,7 @@ def run_check(pid, tier="quick", seed=0, workers=None, limit=None, verbose=True)
         "nontrivial": 0,
         "executions": 0,
         "notes": {},
+        "extra_states": 0,
     }
     states = set()
     seen_digests = set()
@@ -215,6 +216,7 @@ def run_check(pid, tier="quick", seed=0, workers=None, limit=None, verbose=True)
             agg["witness"][k] = agg["witness"].get(k, 0) + n
         agg["transitions"] += res.get("transitions", 0)
         agg["evals"] += res.get("evals", 0)
+        agg["extra_states"] += int(res.get("n_nodes", 0) or 0)
         blob = res.get("states") or b""
         for i in range(0, len(blob), 8):
             states.add(blob[i:i + 8])
@@ -306,7 +308,7 @@ def run_check(pid, tier="quick", seed=0, workers=None, limit=None, verbose=True)
         if scns[i] not in samples:
             samples.append(scns[i])
     coverage = {
-        "states": max(1, len(states)) if agg["transitions"] or len(states) else len(states),
+        "states": len(states) + agg["extra_states"],
         "transitions": agg["transitions"],
         "traces_validated_against_impl": agg["executions"] - len(agg["harness_errors"]),
         "evaluations": agg["evals"] or agg["executions"],
@@ -352,7 +354,7 @@ def run_check(pid, tier="quick", seed=0, workers=None, limit=None, verbose=True)
     # ---- report ---------------------------------------------------------------------------
     print(
         f"[{pid}] tier={tier} seed={seed} executions={agg['executions']} transitions={agg['transitions']} "
-        f"states={len(states)} evaluations={coverage['evaluations']} nontrivial={len(nontrivial_digests)} "
+        f"states={len(states) + agg['extra_states']} evaluations={coverage['evaluations']} nontrivial={len(nontrivial_digests)} "
         f"aborted={len(agg['aborted'])} wall={ev['wall_s']}s"
     )
     if verbose:
